@@ -405,26 +405,27 @@ func c06Helper(c *eng.Ctx, d *dbInfo, f *ssa.Function, sig checkerSig, we *ssa.F
 			c.Undecided("R-C06-5", f, w.Pos(), eng.CallStr(&w.Call), "cannot identify the single entry written")
 			continue
 		}
-		fields, _, ok := eng.LiteralFields(eng.Origin(elems[0]))
+		// the entry: a literal, or the literal a small constructor helper returns
+		fields, mapv, ok := eng.LiteralThroughHelper(elems[0])
 		if !ok {
 			c.Undecided("R-C06-5", f, w.Pos(), eng.CallStr(&w.Call), "entry is not a literal")
 			continue
 		}
 		callerP, actionP, secretP := f.Params[sig.Caller], f.Params[sig.Action], f.Params[sig.Name]
 		fr, base, isF := eng.LoadedField(fields["Principal"])
-		c.Check(isF && fr.Is("db", "Caller", "Principal") && isParam(base, callerP), "R-C06-5", f, w.Pos(), "entry.Principal", "the helper's caller.Principal", "= "+eng.ValStr(fields["Principal"]))
-		c.Check(fields["Action"] != nil && eng.Origin(fields["Action"]) == actionP, "R-C06-5", f, w.Pos(), "entry.Action", "the helper's action parameter", "= "+eng.ValStr(fields["Action"]))
-		c.Check(fields["Secret"] != nil && eng.Origin(fields["Secret"]) == secretP, "R-C06-5", f, w.Pos(), "entry.Secret", "the helper's secret-name parameter", "= "+eng.ValStr(fields["Secret"]))
+		c.Check(isF && fr.Is("db", "Caller", "Principal") && (isParam(base, callerP) || isParam(mapv(base), callerP)), "R-C06-5", f, w.Pos(), "entry.Principal", "the helper's caller.Principal", "= "+eng.ValStr(fields["Principal"]))
+		c.Check(fields["Action"] != nil && mapv(fields["Action"]) == ssa.Value(actionP), "R-C06-5", f, w.Pos(), "entry.Action", "the helper's action parameter", "= "+eng.ValStr(fields["Action"]))
+		c.Check(fields["Secret"] != nil && mapv(fields["Secret"]) == ssa.Value(secretP), "R-C06-5", f, w.Pos(), "entry.Secret", "the helper's secret-name parameter", "= "+eng.ValStr(fields["Secret"]))
 		var verP *ssa.Parameter
 		for _, prm := range f.Params {
 			if eng.IsNamed(prm.Type(), "types/api", "SecretVersion") {
 				verP = prm
 			}
 		}
-		c.Check(verP != nil && fields["SecretVersion"] != nil && eng.Origin(fields["SecretVersion"]) == verP, "R-C06-5", f, w.Pos(), "entry.SecretVersion", "the helper's version parameter", "= "+eng.ValStr(fields["SecretVersion"]))
+		c.Check(verP != nil && fields["SecretVersion"] != nil && mapv(fields["SecretVersion"]) == ssa.Value(verP), "R-C06-5", f, w.Pos(), "entry.SecretVersion", "the helper's version parameter", "= "+eng.ValStr(fields["SecretVersion"]))
 		okAuth := false
-		if call, _ := eng.TupleCall(fields["Authorized"]); call != nil {
-			if holder, av, nv, isAllow := allowCall(&call.Call); isAllow && holder != nil && isParam(holder, callerP) && eng.Origin(av) == actionP && eng.Origin(nv) == secretP {
+		if call, _ := eng.TupleCall(mapv(fields["Authorized"])); call != nil {
+			if holder, av, nv, isAllow := allowCall(&call.Call); isAllow && holder != nil && isParam(holder, callerP) && eng.Origin(av) == ssa.Value(actionP) && eng.Origin(nv) == ssa.Value(secretP) {
 				okAuth = true
 			}
 		}
